@@ -1,24 +1,26 @@
 /- Model driver: one operation per input line, one result per output line. -/
 import Pyx12Verif.Drv.C13
+import Pyx12Verif.Drv.Walk
+import Pyx12Verif.Drv.C14
 
 open Pyx12Verif
 
 def handlers : List (List (List Char) → Option String) :=
-  [Drv.C13.handle]
+  [Drv.C13.handle, Drv.C14.handle]
 
-def dispatch (fs : List (List Char)) : String :=
-  match handlers.findSome? (fun h => h fs) with
-  | some r => r
-  | none => "bad-op"
-
-partial def loop (hin hout : IO.FS.Stream) : IO Unit := do
+partial def loop (hin hout : IO.FS.Stream) (st : Drv.Walk.DState) : IO Unit := do
   let line ← hin.getLine
   if line.isEmpty then return ()
-  hout.putStrLn (dispatch (Proto.fields line))
-  loop hin hout
+  let fs := Proto.fields line
+  match handlers.findSome? (fun h => h fs) with
+  | some r => hout.putStrLn r; loop hin hout st
+  | none =>
+    match Drv.Walk.handle st fs with
+    | some (st', r) => hout.putStrLn r; loop hin hout st'
+    | none => hout.putStrLn "bad-op"; loop hin hout st
 
 def main : IO Unit := do
   let hin ← IO.getStdin
   let hout ← IO.getStdout
-  loop hin hout
+  loop hin hout {}
   hout.flush
